@@ -288,6 +288,24 @@ ADDED5 = {
 }
 
 
+ADDED6 = {
+ "C02": "Grouped counts and grouped TPM of three isoforms sharing a chain (groups made of shared reads only); world variant 2 (multi-mapped read tied over two loci; known finding).",
+ "C04": "Structure IP (unspliced polyA cluster inside an exon of a novel spliced model).",
+ "C05": "World bridge-lowq (low-MAPQ inconsistent read spanning the cut of a cluster; known finding).",
+ "C06": "Loci with equal coordinates and opposite splice-site strands on two chromosomes.",
+ "C07": "Worlds w11 (stale folder with another assembly's unpacked reference) and w12 (restart from saved assignments next to the traces of an interrupted restart); w7 in the quick tier.",
+ "C08": "Level L1b (resolver records made from full ReadAssignment objects by constructor and abridged stream reader, all penalty pairs); two placements of a read on one gene (known finding); reused-folder mode.",
+ "C09": "One shared read per group in the shared-chain worlds.",
+ "C11": "World ends (terminal offsets of the third supporting read of a novel isoform, 7x7 lattice, both strands); SEQ-less staggered secondary record.",
+ "C14": "Part B: sites moved by the short-read corrector stay within its tolerance.",
+ "C15": "Reuse worlds two-bams-auto (automatic file-name grouping) and two-experiments (restart with two save prefixes).",
+ "C16": "Second CIGAR walker of the anchors (concat_gapless_blocks + correct_bam_coords) on every CIGAR string pysam accepts; accepted aligned tails must be A/T-rich up to the read end.",
+ "C17": "Novel unspliced transcripts in the pipeline world.",
+ "C18": "Islands variant 5 (non-canonical annotated intron outside the reads).",
+ "C20": "Alignment cache through the real map_reads and remove_previous_run_locks (glob interposed).",
+}
+
+
 def main():
     props = [json.loads(l) for l in open(os.path.join(HERE, "properties.jsonl"))]
     checks = []
@@ -296,7 +314,7 @@ def main():
         pid = p["id"]
         if pid in CHECKS:
             level, tech, text, note, ref = CHECKS[pid]
-            text = text + ADDED.get(pid, "") + (" " + ADDED2[pid] if pid in ADDED2 else "") + (" " + ADDED3[pid] if pid in ADDED3 else "") + (" " + ADDED4[pid] if pid in ADDED4 else "") + (" " + ADDED5[pid] if pid in ADDED5 else "")
+            text = text + ADDED.get(pid, "") + (" " + ADDED2[pid] if pid in ADDED2 else "") + (" " + ADDED3[pid] if pid in ADDED3 else "") + (" " + ADDED4[pid] if pid in ADDED4 else "") + (" " + ADDED5[pid] if pid in ADDED5 else "") + (" " + ADDED6[pid] if pid in ADDED6 else "")
             checks.append({
                 "property_id": pid,
                 "quick_cmd": "./check %s --tier quick" % pid,
